@@ -50,7 +50,7 @@ fn int_in<R>(n: i64) -> R where R: Ring, for<'x> &'x R: RingOps<R> {
 }
 
 /// Value of a spec token in R, built by ring arithmetic only (never through the string parsers under test).
-fn elem<R>(tok: &Value) -> Result<R, String> where R: Ring + RingVars, for<'x> &'x R: RingOps<R> {
+pub(crate) fn elem<R>(tok: &Value) -> Result<R, String> where R: Ring + RingVars, for<'x> &'x R: RingOps<R> {
     match tok["k"].as_str().unwrap_or("") {
         "int" => Ok(int_in::<R>(tok["v"].as_i64().unwrap())),
         "rat" => { let d = int_in::<R>(tok["d"].as_i64().unwrap()); let di = d.inv().ok_or("denominator not invertible")?; Ok(int_in::<R>(tok["v"].as_i64().unwrap()) * di) }
@@ -61,7 +61,7 @@ fn elem<R>(tok: &Value) -> Result<R, String> where R: Ring + RingVars, for<'x> &
 
 // ------------------------------------------------------------------ the library's answer
 
-fn cell(i: isize, j: isize, rank: usize, tors: Vec<String>) -> Value { json!({"i": i, "j": j, "rank": rank, "tors": tors}) }
+pub(crate) fn cell(i: isize, j: isize, rank: usize, tors: Vec<String>) -> Value { json!({"i": i, "j": j, "rank": rank, "tors": tors}) }
 
 fn lib_kh<R>(l: &Link, h: &Value, t: &Value, reduced: bool, bigraded: bool) -> Result<(String, Vec<Value>), String>
 where R: EucRing + RingVars, for<'x> &'x R: EucRingOps<R> {
@@ -97,7 +97,7 @@ where R: Ring + RingVars, for<'x> &'x R: RingOps<R> {
 }
 
 type Q = Ratio<i64>;
-type F2 = FF<2>;
+pub(crate) type F2 = FF<2>;
 type F3 = FF<3>;
 
 /// kind: "Table2D" | "Seq1D" (homology) | "GenTable" (complex). None = no such library object (kh over a non-Euclidean ring).
@@ -127,10 +127,10 @@ fn lib_call(kind: &str, base: &str, vars: &str, l: &Link, h: &Value, t: &Value, 
 #[derive(Clone, Debug)]
 pub struct Input { pub arg: String, pub pd: Option<Vec<[usize; 4]>> }   // pd: what the harness hands to the library (None = no diagram)
 
-pub struct Catalogue { res: String, work: String, thorough: bool }
+pub struct Catalogue { pub(crate) res: String, pub(crate) work: String, pub(crate) thorough: bool }
 
-fn pd_json(pd: &[[usize; 4]]) -> String { serde_json::to_string(pd).unwrap() }
-fn parse_pd(s: &str) -> Option<Vec<[usize; 4]>> { serde_json::from_str::<Vec<[usize; 4]>>(s).ok() }
+pub(crate) fn pd_json(pd: &[[usize; 4]]) -> String { serde_json::to_string(pd).unwrap() }
+pub(crate) fn parse_pd(s: &str) -> Option<Vec<[usize; 4]>> { serde_json::from_str::<Vec<[usize; 4]>>(s).ok() }
 
 impl Catalogue {
     pub fn new(a: &Args) -> Catalogue {
@@ -138,13 +138,13 @@ impl Catalogue {
         std::fs::create_dir_all(&work).expect("work dir");
         Catalogue { res: a.flag("--resources").unwrap_or_else(|| RES_DIR_DEFAULT.to_string()), work, thorough: a.thorough() }
     }
-    fn pd_of(&self, name: &str) -> Vec<[usize; 4]> {
+    pub(crate) fn pd_of(&self, name: &str) -> Vec<[usize; 4]> {
         let s = std::fs::read_to_string(format!("{}/{}.json", self.res, name)).unwrap_or_else(|_| panic!("catalogue entry {}", name));
         parse_pd(&s).expect("catalogue PD")
     }
     fn named(&self, name: &str) -> Input { Input { arg: name.to_string(), pd: Some(self.pd_of(name)) } }
-    fn exists(&self, name: &str) -> bool { std::path::Path::new(&format!("{}/{}.json", self.res, name)).exists() || std::path::Path::new(name).exists() }
-    fn file_with(&self, name: &str, content: &str) -> String {
+    pub(crate) fn exists(&self, name: &str) -> bool { std::path::Path::new(&format!("{}/{}.json", self.res, name)).exists() || std::path::Path::new(name).exists() }
+    pub(crate) fn file_with(&self, name: &str, content: &str) -> String {
         let p = format!("{}/{}", self.work, name);
         std::fs::write(&p, content).expect("write input file");
         p
@@ -220,7 +220,7 @@ impl Catalogue {
 
 // ------------------------------------------------------------------ the command line of a point
 
-fn tok_str(tok: &Value, rng: Option<&mut StdRng>) -> String {
+pub(crate) fn tok_str(tok: &Value, rng: Option<&mut StdRng>) -> String {
     match tok["k"].as_str().unwrap() {
         "int" => { let v = tok["v"].as_i64().unwrap();
             if tok["canon"].as_bool().unwrap() { v.to_string() }
@@ -233,7 +233,7 @@ fn tok_str(tok: &Value, rng: Option<&mut StdRng>) -> String {
         _ => match rng { Some(r) => ["x", "", "h", "t", "Z", "1.5", "--", "a/b", " 1", "1 ", "0x10", "1e3", "١"][r.gen_range(0..13)].to_string(), None => "x".to_string() },
     }
 }
-fn cv_str(cv: &Value, mut rng: Option<&mut StdRng>) -> String {
+pub(crate) fn cv_str(cv: &Value, mut rng: Option<&mut StdRng>) -> String {
     cv.as_array().unwrap().iter().map(|t| tok_str(t, rng.as_deref_mut())).collect::<Vec<_>>().join(",")
 }
 
@@ -269,14 +269,14 @@ fn argv_random(p: &Value, link: &str, cvs: &str, rng: &mut StdRng) -> Vec<String
 
 // ------------------------------------------------------------------ running the binary, lexing stdout
 
-pub struct RunOut { code: i32, stdout: String, stderr: String }
+pub struct RunOut { pub code: i32, pub stdout: String, pub stderr: String }
 
-fn run_bin(ykh: &str, argv: &[String]) -> RunOut {
+pub(crate) fn run_bin(ykh: &str, argv: &[String]) -> RunOut {
     let o = Command::new("timeout").arg("60").arg(ykh).args(argv).env("RUST_BACKTRACE", "0").stdin(Stdio::null()).output().expect("spawn ykh");
     RunOut { code: o.status.code().unwrap_or(-1), stdout: String::from_utf8_lossy(&o.stdout).to_string(), stderr: String::from_utf8_lossy(&o.stderr).to_string() }
 }
 
-fn strip_ansi(s: &str) -> String {
+pub(crate) fn strip_ansi(s: &str) -> String {
     let mut out = String::new(); let mut it = s.chars().peekable();
     while let Some(c) = it.next() { if c == '\u{1b}' { for d in it.by_ref() { if d.is_ascii_alphabetic() { break; } } } else { out.push(c); } }
     out
@@ -286,7 +286,7 @@ fn sup_digit(c: char) -> Option<u32> { "⁰¹²³⁴⁵⁶⁷⁸⁹".chars().pos
 fn tk(k: &str, s: &str, n: u64) -> Value { json!({"k": k, "s": s, "n": n}) }
 
 /// A trailing superscript number, if any: "Z²" -> ("Z", Some(2)).
-fn split_sup(s: &str) -> (String, Option<u64>) {
+pub(crate) fn split_sup(s: &str) -> (String, Option<u64>) {
     let ch: Vec<char> = s.chars().collect();
     let mut i = ch.len();
     while i > 0 && sup_digit(ch[i - 1]).is_some() { i -= 1; }
@@ -372,7 +372,7 @@ pub fn parse_stdout(raw: &str) -> (String, Table) {
     (class.into(), t)
 }
 
-fn table_json(t: &Table) -> Value {
+pub(crate) fn table_json(t: &Table) -> Value {
     json!({"cols": t.cols, "rows": t.rows, "zeros": t.zeros,
            "cells": t.cells.iter().map(|(c, r, s)| json!({"c": c, "r": r, "tok": lex_cell(s)})).collect::<Vec<_>>()})
 }
@@ -387,10 +387,10 @@ fn norm_expected(sym: &str, rank: u64, tors: &[String]) -> Vec<String> {
     for (t, k) in m { v.push(if k > 1 { format!("({}/{}){}", sym, t, sup(k)) } else { format!("({}/{})", sym, t) }); }
     v.sort(); v
 }
-fn norm_printed(s: &str) -> Vec<String> { let mut v: Vec<String> = s.split(" ⊕ ").map(|x| x.to_string()).collect(); v.sort(); v }
+pub(crate) fn norm_printed(s: &str) -> Vec<String> { let mut v: Vec<String> = s.split(" ⊕ ").map(|x| x.to_string()).collect(); v.sort(); v }
 
 /// Rust-side comparison of a printed table with the library's cells; None = equal.
-fn cells_differ(t: &Table, sym: &str, lib: &[Value]) -> Option<String> {
+pub(crate) fn cells_differ(t: &Table, sym: &str, lib: &[Value]) -> Option<String> {
     let mut printed: BTreeMap<(i64, i64), Vec<String>> = BTreeMap::new();
     for (c, r, s) in &t.cells {
         if printed.insert((t.cols[*c - 1], t.rows[*r - 1]), norm_printed(s)).is_some() { return Some(format!("two printed cells at ({}, {})", t.cols[*c - 1], t.rows[*r - 1])); }
@@ -409,7 +409,7 @@ fn cells_differ(t: &Table, sym: &str, lib: &[Value]) -> Option<String> {
 
 /// ckh where the simplified complex is not determined by the parameters (elimination order): only well-formedness,
 /// the ring symbol and the Euler characteristic (per quantum degree j when `per_q`) are compared.
-fn euler_differs(t: &Table, sym: &str, lib: &[Value], per_q: bool) -> Option<String> {
+pub(crate) fn euler_differs(t: &Table, sym: &str, lib: &[Value], per_q: bool) -> Option<String> {
     if t.cells.len() + t.zeros != t.cols.len() * t.rows.len() { return Some("ragged table".into()); }
     let sgn = |i: i64| if i.rem_euclid(2) == 0 { 1i64 } else { -1 };
     let mut chi_p: BTreeMap<i64, i64> = BTreeMap::new();
@@ -575,7 +575,7 @@ pub fn replay(a: &Args) {
 
 // ------------------------------------------------------------------ record (B)
 
-fn int_tok(v: i64, canon: bool) -> Value { json!({"k": "int", "v": v, "d": 1, "x": "", "canon": canon}) }
+pub(crate) fn int_tok(v: i64, canon: bool) -> Value { json!({"k": "int", "v": v, "d": 1, "x": "", "canon": canon}) }
 
 /// Seeded random instances: a product point is taken as a template; its integer literals are replaced by other
 /// integers / spellings, its input by a random member of the class, its argv by a random spelling.
